@@ -40,7 +40,10 @@ P = {
             "path segments from a pool of plain and percent-encoded values (%20, %41, %2F, %2f, %25, brackets, UTF-8), 4 methods (the method "
             "constraint is violated on purpose in a share), http/https, 4 hosts, 7 queries, 0-3 header names in random casing with repeated "
             "lines, an optional Cookie line (plain, quoted, spaces, commas, odd separators, invalid names), optional Content-Type + body "
-            "(json/form/yaml/text/unknown, valid, invalid and empty bodies).  The same request goes to all three entry points.  Corpus "
+            "(json/form/yaml/text/unknown, valid, invalid and empty bodies); in a third of the requests the client itself sends a "
+            "header (any casing, one or two lines) or a cookie under a name the rule's pipeline sets; requests are aimed at the rule's "
+            "conditions (header, cookie, capture, method, scheme, host, query) in 60% so that pipelines run to their end.  The same "
+            "request goes to all three entry points.  Corpus "
             "(24 cases, the witnesses of C13-F1..F8 and F3b) first.  Non-trivial = a rule matched and its pipeline reads the view in a condition "
             "or a template; distinct by hash of (rule, request).",
     "anchors": ["internal/handler/requestcontext/request_context.go", "internal/handler/decision/request_context.go",
@@ -102,8 +105,10 @@ P = {
         "line, values without surrounding blanks, at most one Cookie line, path starts with '/' and is validly percent-encoded",
         "Envoy delivers the request as mk_envoy says (see trusted); real Envoy's pseudo headers and query-in-path are out of scope",
         "hosts are plain host[:port] values that url.URL.String() does not escape (the model of String() writes the host as it is)",
-        "pipeline header names are disjoint from the request's header names and pipeline cookie names from the request's cookie names "
-        "(overriding client headers is C15); pipeline header name Host is not generated",
+        "a client header / cookie that arrives at the upstream exactly as the client sent it counts as passed through, not as handed "
+        "over by the pipeline (pass-through is C15's); everything else under a name the pipeline can set counts, so a pipeline value "
+        "appended to the client's instead of replacing it is a difference (seeded change C13-1); Envoy is taken to overwrite a request "
+        "header with an OkResponse header option (heimdall sets no append flag); pipeline header name Host is not generated",
         "header and cookie finalizer templates are never empty (an empty template string is a nil template: panic in Render, recovered "
         "as 500 by the HTTP services and as gRPC Internal by the Envoy service - C19 territory, noted in docs/notes/C13.md)",
     ],
